@@ -802,8 +802,24 @@ def _deco_name(d: Any) -> str:
     return f.attr if isinstance(f, ast.Attribute) else getattr(f, "id", "?")
 
 
+class FieldSpec:
+    """value of dataclasses.field(...)"""
+
+    def __init__(self, kw: Dict[str, Any]):
+        self.has_default = "default" in kw
+        self.default = kw.get("default")
+        self.default_factory = kw.get("default_factory")
+        self.init = kw.get("init", True) is not False
+
+
 def _dataclass_init(interp: Any, cls: Any, obj: Any, args: List[Any], kwargs: Dict[str, Any]) -> None:
-    fields = cls.attrs.get("__annotations_order__", [])
+    allf = cls.attrs.get("__annotations_order__", [])
+    # dataclasses.field(default=..., default_factory=..., init=...): ASSUMED as documented
+    specs = {f: cls.attrs[f] for f in allf if isinstance(cls.attrs.get(f), FieldSpec)}
+    for f, sp in specs.items():
+        if not sp.init:
+            obj.attrs[f] = interp.call(sp.default_factory, [], {}) if sp.default_factory is not None else sp.default
+    fields = [f for f in allf if not (f in specs and not specs[f].init)]
     if len(args) > len(fields):
         raise PyRaise("TypeError", "too many positional arguments")
     vals = dict(zip(fields, args))
@@ -815,7 +831,15 @@ def _dataclass_init(interp: Any, cls: Any, obj: Any, args: List[Any], kwargs: Di
         vals[k] = v
     for f in fields:
         if f not in vals:
-            if f in cls.attrs:
+            if f in specs:
+                sp = specs[f]
+                if sp.default_factory is not None:
+                    vals[f] = interp.call(sp.default_factory, [], {})
+                elif sp.has_default:
+                    vals[f] = sp.default
+                else:
+                    raise PyRaise("TypeError", f"missing argument {f}")
+            elif f in cls.attrs:
                 vals[f] = cls.attrs[f]
             else:
                 raise PyRaise("TypeError", f"missing argument {f}")
